@@ -1,67 +1,104 @@
 import Model.Engine.Base
-/-! Component `Ack` (C06): who committed which log, what is durable, who was answered what. -/
+/-! Component `Ack` (C06): who committed which log, what is durable, who was answered what.
+
+Every queued / persisted entry written during the run carries the request that produced it (`pending`, `written`),
+so that "the entry of request a" is a matter of identity, not of content equality. -/
 namespace Engine.Ack
 open Engine
 
+/-- a successful answer of a real write: the request, the entry it stands for, the transaction id it was given -/
+structure AckR where
+  a : Nat
+  entry : LogE
+  txid : Option Nat
+deriving Repr, DecidableEq
+
 structure S where
-  base : Nat                      -- entries that were there before the run (funding)
-  durable : List LogE
-  pending : List LogE
-  mine : List (Nat × LogE)        -- request ↦ the log it committed
-  found : List (Nat × Nat)        -- request ↦ id of the durable log its idempotency key designated
-  acks : List (Nat × Nat)         -- successful answers of real writes: request ↦ id of the entry it stands for
+  base : List LogE                -- entries that were there before the run (funding)
+  durable : List LogE             -- what the store holds
+  pending : List (Nat × LogE)     -- handed to the batcher by a request, not yet persisted, in order
+  written : List (Nat × LogE)     -- persisted during this run, with the request that produced it
+  mine : List (Nat × LogE)        -- request ↦ the log it committed (never forgotten)
+  found : List (Nat × LogE)       -- request ↦ the durable log its idempotency key designated
+  acks : List AckR                -- successful answers of real writes
   errs : List Nat                 -- requests answered with an error
+  dropped : List Nat              -- requests whose log was still queued when the process died
 deriving Repr
 
 def init (durable : List LogE) : S :=
-  { base := durable.length, durable := durable, pending := [], mine := [], found := [], acks := [], errs := [] }
+  { base := durable, durable := durable, pending := [], written := [], mine := [], found := [], acks := [], errs := [],
+    dropped := [] }
 
 def logOf (s : S) (a : Nat) : Option LogE := (s.mine.find? (·.1 = a)).map (·.2)
+
+def foundOf (s : S) (a : Nat) : Option LogE := (s.found.find? (·.1 = a)).map (·.2)
+
+/-- has the request been answered already? -/
+def answered (s : S) (a : Nat) : Bool := s.errs.contains a || s.acks.any (·.a = a)
 
 def step (dry : Nat → Bool) (s : S) : Ev → Except String S
   | .committed a l _ =>
     if dry a then .error "ack: a preview committed a log"
     else if (logOf s a).isSome then .error "ack: second log of one request"
-    else .ok { s with mine := (a, l) :: s.mine, pending := s.pending ++ [l] }
+    else if answered s a then .error "ack: a log committed by a request that was already answered"
+    else .ok { s with mine := (a, l) :: s.mine, pending := s.pending ++ [(a, l)] }
   | .gate n ok =>
     if n = 0 ∨ n > s.pending.length then .error "ack: batch larger than what is pending"
-    else if ok then .ok { s with durable := s.durable ++ s.pending.take n, pending := s.pending.drop n }
+    else if ok then
+      .ok { s with durable := s.durable ++ (s.pending.take n).map (·.2), written := s.written ++ s.pending.take n,
+                   pending := s.pending.drop n }
     else .ok s
-  | .crash => .ok { s with pending := [] }
+  | .crash => .ok { s with pending := [], dropped := s.pending.map (·.1) ++ s.dropped }
   | .ikRead a key (some id) =>
-    if s.durable.any (fun l => l.id = id ∧ l.ik = key) then .ok { s with found := (a, id) :: s.found }
-    else .error "ack: idempotency lookup returned a log that is not persisted"
+    match s.durable.find? (fun l => l.id = id ∧ l.ik = key) with
+    | some l => .ok { s with found := (a, l) :: s.found }
+    | none => .error "ack: idempotency lookup returned a log that is not persisted"
   | .arrive a pt =>
     if pt = "done" ∧ !dry a then
       match logOf s a with
-      | some l => if l ∈ s.durable then .ok s else .error "ack: woken before its log was persisted"
+      | some l => if (a, l) ∈ s.written then .ok s else .error "ack: woken before its log was persisted"
       | none => .error "ack: waiting without a log"
     else .ok s
   | .finish a true _ txid =>
     if dry a then .ok s else
     match logOf s a with
     | some l =>
-      if l ∉ s.durable then .error "ack: acknowledged before persisted"
+      if (a, l) ∉ s.written then .error "ack: acknowledged before persisted"
       else if l.isTx ∧ txid ≠ l.txid then .error "ack: answer differs from the entry"
-      else .ok { s with acks := (a, l.id) :: s.acks }
+      else .ok { s with acks := ⟨a, l, txid⟩ :: s.acks }
     | none =>
-      match (s.found.find? (·.1 = a)).map (·.2) with
-      | some id => .ok { s with acks := (a, id) :: s.acks }
+      match foundOf s a with
+      | some l =>
+        if l.isTx ∧ txid ≠ l.txid then .error "ack: answer differs from the entry its key designates"
+        else .ok { s with acks := ⟨a, l, txid⟩ :: s.acks }
       | none => .error "ack: success without an entry"
   | .finish a false _ _ =>
     if (logOf s a).isSome then .error "ack: error answered after committing a log" else .ok { s with errs := a :: s.errs }
   | _ => .ok s
 
-structure Inv (s : S) : Prop where
-  /-- acknowledged ⇒ persisted -/
-  acked : ∀ x ∈ s.acks, ∃ l ∈ s.durable, l.id = x.2
-  /-- every entry written during the run has a request that produced it -/
-  produced : ∀ l ∈ (s.durable ++ s.pending).drop s.base, ∃ a, (a, l) ∈ s.mine
-  /-- a request that reported an error left nothing -/
-  clean : ∀ a ∈ s.errs, logOf s a = none
+/-- the requests carried by a tagged list -/
+def tagsOf (xs : List (Nat × LogE)) : List Nat := xs.map (·.1)
+
+structure Inv (dry : Nat → Bool) (s : S) : Prop where
+  /-- the store holds what was there plus what the requests of this run got persisted, nothing else, nothing lost -/
+  store : s.durable = s.base ++ s.written.map (·.2)
+  /-- every entry written or queued during the run was committed by the request it is tagged with -/
+  sub : ∀ x ∈ s.written ++ s.pending, x ∈ s.mine
   /-- one log per request -/
-  once : (s.mine.map (·.1)).Nodup
-  /-- nothing that was there is lost -/
-  grows : s.base ≤ s.durable.length
+  once : (tagsOf s.mine).Nodup
+  /-- one entry per request -/
+  tags : (tagsOf (s.written ++ s.pending)).Nodup
+  /-- previews commit nothing -/
+  real : ∀ x ∈ s.mine, dry x.1 = false
+  /-- acknowledged ⇒ persisted, and the answer carries the entry's transaction id -/
+  acked : ∀ x ∈ s.acks, x.entry ∈ s.durable ∧ (x.entry.isTx = true → x.txid = x.entry.txid) ∧ dry x.a = false
+  /-- the log an acknowledged request committed is the entry it was answered with, and it is persisted -/
+  own : ∀ x ∈ s.acks, ∀ l, (x.a, l) ∈ s.mine → l = x.entry ∧ (x.a, l) ∈ s.written
+  /-- a request that reported an error left nothing -/
+  clean : ∀ a ∈ s.errs, ∀ l, (a, l) ∉ s.mine
+  /-- a request whose log was lost in a crash has no entry -/
+  lost : ∀ a ∈ s.dropped, a ∈ tagsOf s.mine ∧ a ∉ tagsOf (s.written ++ s.pending)
+  /-- what an idempotency lookup returned stays persisted -/
+  foundOk : ∀ x ∈ s.found, x.2 ∈ s.durable
 
 end Engine.Ack
